@@ -191,15 +191,17 @@ Definition model_revcomp2 (keys : list (Z * Z)) (ez : Z) (rows : list (list Z)) 
 
 (* np.where(mask[:, newaxis], x, y) on ragged arrays (npstructures.arrayfunctions.where): the column mask
    is broadcast over the rows only `if ragged_mask.size < x.size`; otherwise the call fails.
-   [where_pinned] is that behaviour; [where_fixed] is row-wise choice for every shape (notes/C14.fix-2.diff
-   broadcasts the mask in bionumpy before calling np.where). *)
+   [where_pinned] is that behaviour (the code BEFORE the repair: mask handed over as `(..)[:, np.newaxis]`);
+   [where_fixed] is row-wise choice for every shape: the repaired code (notes/C14.fix-2.final.diff) hands np.where an
+   explicit ragged mask `broadcast_row_mask(.., sequences)`; [where_flat] / [row_mask_of] at the end of this file are
+   npstructures' behaviour on such a mask, Bridge/C14.v proves that it is [where_fixed] on operands of equal shape. *)
 Definition choose_rows (mask : list bool) (x y : list (list Z)) : list (list Z) :=
   map (fun p : bool * (list Z * list Z) => if fst p then fst (snd p) else snd (snd p)) (combine mask (combine x y)).
 Definition where_pinned (mask : list bool) (x y : list (list Z)) : result (list (list Z)) :=
   if len mask <? len (concat x) then Ok (choose_rows mask x y) else Err 5.
 Definition where_fixed (mask : list bool) (x y : list (list Z)) : result (list (list Z)) :=
   Ok (choose_rows mask x y).
-Definition where_rows : list bool -> list (list Z) -> list (list Z) -> result (list (list Z)) := where_pinned.                            (* <- the one-line switch *)
+Definition where_rows : list bool -> list (list Z) -> list (list Z) -> result (list (list Z)) := where_fixed.                            (* <- the one-line switch; where_fixed since the repair notes/C14.fix-2.final.diff (broadcast_row_mask) *)
 
 Definition iv_slice (codes : list Z) (iv : Z * Z * Z) : list Z := let '(a, b, _) := iv in slice a b codes.
 Definition iv_strand (iv : Z * Z * Z) : Z := let '(_, _, s) := iv in s.
@@ -327,3 +329,24 @@ Definition tx_bases (txs : list transcript) : Z :=
    not a multiple of three must not be translated silently — the call has to raise *)
 Definition tr_wellformed (rows : list (list Z)) : bool :=
   forallb (fun r => forallb (fun cd => existsb (zlist_eqb cd) all_codons) (chunks_of 3 r)) rows.
+
+(* ---------- the repaired mask: dna.py broadcast_row_mask + npstructures' np.where on a full-size ragged mask ---------- *)
+(* npstructures.arrayfunctions.where with a ragged mask that is NOT smaller than x: no broadcasting, np.where on the three
+   raveled arrays, rows rebuilt with the shape OF THE MASK.  Flat sizes that differ make NumPy raise (Err 5). *)
+Definition choice (p : bool * (Z * Z)) : Z := if fst p then fst (snd p) else snd (snd p).
+Definition where_flat (rmask : list (list bool)) (x y : list (list Z)) : result (list (list Z)) :=
+  let fm := concat rmask in let fx := concat x in let fy := concat y in
+  if (len fm =? len fx) && (len fm =? len fy)
+  then Ok (split_lens (map choice (combine fm (combine fx fy))) (map len rmask))
+  else Err 5.
+(* a where call of the repaired code: [row_mask] is the regenerated broadcast_row_mask, [over_x] says whether its second
+   argument is the first (x) or the second (y) np.where operand *)
+Definition where_call (row_mask : list bool -> list (list Z) -> list (list bool)) (over_x : bool)
+           (mask : list bool) (x y : list (list Z)) : result (list (list Z)) :=
+  where_flat (row_mask mask (if over_x then x else y)) x y.
+(* the hand-written reading of broadcast_row_mask: RaggedArray(np.repeat(mask, lengths), lengths) *)
+Definition row_mask_of {A} (mask : list bool) (sequences : list (list A)) : list (list bool) :=
+  map (fun p : bool * list A => repeat (fst p) (length (snd p))) (combine mask sequences).
+(* which np.where a site reaches: explicit row mask (repaired) or column mask `[:, np.newaxis]` (before the repair) *)
+Definition where_by_form (row_form : bool) : list bool -> list (list Z) -> list (list Z) -> result (list (list Z)) :=
+  if row_form then where_fixed else where_pinned.
